@@ -150,6 +150,12 @@ def build_jobs(ctx, rng):
             add("convolution_2d", "convolution_2d", {"kernel": K}, H, W, rng.choice(["float32", "float64", "int32"]),
                 "floatinf", (kh // 2, kw // 2), kh=kh, kw=kw)
         add("binary", "binary", {"values": [1, 2, 8]}, H, W, rng.choice(["float64", "int32"]), "floatinf")
+        # listed values single precision cannot hold, on float32 AND float64 rasters holding their roundings:
+        # a backend that casts the list to the raster dtype finds matches the other backend does not
+        add("binary", "binary", {"values": [0.1, 1 / 3, 16777217.0, 3]}, H, W, "float32", "float64u")
+        add("binary", "binary", {"values": [0.1, 1 / 3, 16777217.0, 3]}, H, W, "float64", "float64u")
+        add("reclassify", "reclassify", {"bins": [0.1, 1 / 3, 2500.0001, 16777217.0], "new_values": [1, 2, 3, 4]}, H, W,
+            rng.choice(["float32", "float64"]), "float64u")
         add("reclassify", "reclassify", {"bins": [1, 3, 8, 50], "new_values": [10, 20, 30, 40]}, H, W,
             rng.choice(["float32", "float64", "uint8"]), "floatinf")
         add("equal_interval", "equal_interval", {"k": rng.choice([2, 3, 5])}, H, W, "float64", "float")
